@@ -1,14 +1,21 @@
 //! C19 — ParallelRuleEngine::execute_parallel against the engine's own sequential path.
 //!
-//! case := `<enabled:0|1> <max_threads> <min_rules_per_thread> <reps> <pseed> <facts> <rules>`
-//!   facts := `-` | `name=int,name=int,…`      (a dotted name `U.x` is field `x` of object fact `U`)
+//! case := `<enabled:0|1> <max_threads> <min_rules_per_thread> <reps> <pseed> <facts> <rules> [d<k> (<facts> <rules>)*]`
+//!   facts := `-` | `name=V,name=V,…`          (a dotted name `U.x` is field `x` of object fact `U`)
+//!   V     := `<int>` Value::Integer | `f<int>` Value::Number(<int> as f64) | `b0`/`b1` Value::Boolean | `s<text>` Value::String
 //!   rules := rule;rule;…   rule := `name/salience/enabled/cond/acts`   (KB insertion order)
-//!   cond  := RPN tokens joined by `_` : `L:<field>:<op>:<int>` (op ∈ eq ne gt ge lt le) | `R:<field>:<op>:<field>`
-//!            (right-hand side = Value::String naming a field) | `A` and | `O` or
+//!   cond  := RPN tokens joined by `_` : `L:<field>:<op>:<int|f<int>|b0|b1>` (op ∈ eq ne gt ge lt le)
+//!            | `R:<field>:<op>:<text>` (right-hand side = Value::String: the evaluator resolves it as a field name first,
+//!            otherwise it is that string literal — `25`, `true` …) | `A` and | `O` or
 //!            | `N` not | `X` (Compound with LogicalOperator::Not, which the parallel evaluator answers false)
 //!   acts  := `-` | `field=int,…`               (ActionType::Set — the typed core's assignments)
-//! obs  := `S:<run> P:<run> P:<run> …`  S = same engine with `enabled=false` (its sequential path),
-//!          P = the configured engine, first unperturbed, then `reps` runs under seeded schedule points
+//!   d<k>  := debug_mode of the calls: bit 0 = the configured engine's calls, bit 1 = the sequential engine's calls
+//!            (debug output goes to fd 1, which `exec` points at /dev/null)
+//!   every further `<facts> <rules>` pair is one more *stage*: a different KnowledgeBase object with the SAME name and
+//!   other facts, run through the SAME two engine objects (one `ParallelRuleEngine` per configuration lives for the
+//!   whole case: all stages, all repetitions)
+//! obs  := stage ` ;; ` stage …     stage := `S:<run> P:<run> P:<run> …`  S = the engine with `enabled=false` (its
+//!          sequential path), P = the configured engine, first unperturbed, then `reps` runs under seeded schedule points
 //!   run  := `ok/<total_rules_evaluated>/<total_rules_fired>/<name=0|1,…>/<facts after, sorted>`
 //!          | `err` | `panic` | `timeout` (watchdog: the call did not return within 8 s) | `timeout-skipped`
 use rre_harness::*;
@@ -18,12 +25,85 @@ use rust_rule_engine::engine::parallel::{ParallelConfig, ParallelRuleEngine};
 use rust_rule_engine::engine::rule::{Condition, ConditionGroup, Rule};
 use rust_rule_engine::types::{ActionType, LogicalOperator, Operator, Value};
 use std::collections::{BTreeMap, HashMap};
-use std::sync::mpsc;
+use std::io::{BufRead, Write};
+use std::sync::{mpsc, Arc};
 use std::time::Duration;
+
+/// the scalar values of the typed core; `F(i)` is the integral float `i as f64` (floats are never written as decimals)
+#[derive(Clone, Debug, PartialEq)]
+enum Val {
+    I(i64),
+    F(i64),
+    B(bool),
+    S(String),
+}
+
+const MAX_MAG: i64 = 1 << 53; // `i as f64` is exact up to here
+
+fn parse_int(s: &str) -> Option<i64> {
+    if s.starts_with('+') {
+        return None;
+    }
+    let i: i64 = s.parse().ok()?;
+    if (-MAX_MAG..=MAX_MAG).contains(&i) {
+        Some(i)
+    } else {
+        None
+    }
+}
+
+/// a string literal of the grammar: a decimal integer (optional `-`), or a word that Rust's f64 parser rejects —
+/// so that `Value::to_number` of a string is decided by its spelling alone
+fn valid_text(s: &str) -> bool {
+    if s.is_empty() || s.chars().any(|c| c.is_whitespace() || ":_/;,=|".contains(c)) {
+        return false;
+    }
+    let digits = s.strip_prefix('-').unwrap_or(s);
+    if !digits.is_empty() && digits.bytes().all(|b| b.is_ascii_digit()) {
+        return parse_int(s).is_some();
+    }
+    s.parse::<f64>().is_err() && !s.starts_with(|c: char| c.is_ascii_digit() || c == '.' || c == '+' || c == '-')
+}
+
+fn parse_scalar(s: &str) -> Option<Val> {
+    match s {
+        "b0" => Some(Val::B(false)),
+        "b1" => Some(Val::B(true)),
+        _ => match s.strip_prefix('f') {
+            Some(r) => parse_int(r).map(Val::F),
+            None => parse_int(s).map(Val::I),
+        },
+    }
+}
+
+fn parse_val(s: &str) -> Option<Val> {
+    match s.strip_prefix('s') {
+        Some(t) => valid_text(t).then(|| Val::S(t.to_string())),
+        None => parse_scalar(s),
+    }
+}
+
+fn show_val(v: &Val) -> String {
+    match v {
+        Val::I(i) => i.to_string(),
+        Val::F(i) => format!("f{}", i),
+        Val::B(b) => format!("b{}", *b as u8),
+        Val::S(t) => format!("s{}", t),
+    }
+}
+
+fn to_value(v: &Val) -> Value {
+    match v {
+        Val::I(i) => Value::Integer(*i),
+        Val::F(i) => Value::Number(*i as f64),
+        Val::B(b) => Value::Boolean(*b),
+        Val::S(t) => Value::String(t.clone()),
+    }
+}
 
 #[derive(Clone, Debug)]
 enum Tok {
-    Leaf(String, String, i64),
+    Leaf(String, String, Val),
     Ref(String, String, String),
     And,
     Or,
@@ -40,6 +120,13 @@ struct RuleSpec {
     acts: Vec<(String, i64)>,
 }
 
+/// one knowledge base + the facts it is run on
+#[derive(Clone, Debug)]
+struct Stage {
+    facts: Vec<(String, Val)>,
+    rules: Vec<RuleSpec>,
+}
+
 #[derive(Clone, Debug)]
 struct Case {
     en: bool,
@@ -47,8 +134,32 @@ struct Case {
     mr: usize,
     reps: usize,
     pseed: u64,
-    facts: Vec<(String, i64)>,
+    facts: Vec<(String, Val)>,
     rules: Vec<RuleSpec>,
+    /// debug_mode: bit 0 = configured engine, bit 1 = sequential engine
+    dbg: u8,
+    /// further stages run through the same engine objects
+    more: Vec<Stage>,
+}
+
+fn parse_facts(s: &str) -> Option<Vec<(String, Val)>> {
+    if s == "-" {
+        return Some(vec![]);
+    }
+    s.split(',')
+        .map(|kv| {
+            let (k, v) = kv.split_once('=')?;
+            Some((k.to_string(), parse_val(v)?))
+        })
+        .collect()
+}
+
+fn show_facts_kv(kv: &[(String, Val)]) -> String {
+    if kv.is_empty() {
+        "-".into()
+    } else {
+        kv.iter().map(|(k, v)| format!("{}={}", k, show_val(v))).collect::<Vec<_>>().join(",")
+    }
 }
 
 fn parse_kv(s: &str) -> Option<Vec<(String, i64)>> {
@@ -81,8 +192,8 @@ fn parse_cond(s: &str) -> Option<Vec<Tok>> {
             _ => {
                 let p: Vec<&str> = t.split(':').collect();
                 if p.len() == 4 && p[0] == "L" {
-                    Some(Tok::Leaf(p[1].to_string(), p[2].to_string(), p[3].parse().ok()?))
-                } else if p.len() == 4 && p[0] == "R" {
+                    Some(Tok::Leaf(p[1].to_string(), p[2].to_string(), parse_scalar(p[3])?))
+                } else if p.len() == 4 && p[0] == "R" && valid_text(p[3]) {
                     Some(Tok::Ref(p[1].to_string(), p[2].to_string(), p[3].to_string()))
                 } else {
                     None
@@ -99,7 +210,7 @@ fn show_cond(c: &[Tok]) -> String {
             Tok::Or => "O".to_string(),
             Tok::Not => "N".to_string(),
             Tok::XNot => "X".to_string(),
-            Tok::Leaf(f, o, v) => format!("L:{}:{}:{}", f, o, v),
+            Tok::Leaf(f, o, v) => format!("L:{}:{}:{}", f, o, show_val(v)),
             Tok::Ref(f, o, g) => format!("R:{}:{}:{}", f, o, g),
         })
         .collect::<Vec<_>>()
@@ -124,34 +235,75 @@ fn show_rule(r: &RuleSpec) -> String {
     format!("{}/{}/{}/{}/{}", r.name, r.sal, r.en as u8, show_cond(&r.cond), show_kv(&r.acts))
 }
 
+fn parse_rules(s: &str) -> Option<Vec<RuleSpec>> {
+    if s == "-" {
+        Some(vec![])
+    } else {
+        s.split(';').map(parse_rule).collect()
+    }
+}
+
+fn show_rules(rs: &[RuleSpec]) -> String {
+    if rs.is_empty() {
+        "-".to_string()
+    } else {
+        rs.iter().map(show_rule).collect::<Vec<_>>().join(";")
+    }
+}
+
 fn parse_case(line: &str) -> Option<Case> {
     let t: Vec<&str> = line.split_whitespace().collect();
-    if t.len() != 7 {
+    if t.len() != 7 && (t.len() < 8 || t.len() % 2 != 0) {
         return None;
     }
-    let rules = if t[6] == "-" {
-        vec![]
-    } else {
-        t[6].split(';').map(parse_rule).collect::<Option<Vec<_>>>()?
-    };
+    let mut dbg = 0u8;
+    let mut more = Vec::new();
+    if t.len() >= 8 {
+        dbg = t[7].strip_prefix('d')?.parse().ok()?;
+        if dbg > 3 {
+            return None;
+        }
+        for pair in t[8..].chunks(2) {
+            more.push(Stage { facts: parse_facts(pair[0])?, rules: parse_rules(pair[1])? });
+        }
+    }
     Some(Case {
         en: t[0] == "1",
         mt: t[1].parse().ok()?,
         mr: t[2].parse().ok()?,
         reps: t[3].parse().ok()?,
         pseed: t[4].parse().ok()?,
-        facts: parse_kv(t[5])?,
-        rules,
+        facts: parse_facts(t[5])?,
+        rules: parse_rules(t[6])?,
+        dbg,
+        more,
     })
 }
 
 fn show_case(c: &Case) -> String {
-    let rules = if c.rules.is_empty() {
-        "-".to_string()
-    } else {
-        c.rules.iter().map(show_rule).collect::<Vec<_>>().join(";")
-    };
-    format!("{} {} {} {} {} {} {}", c.en as u8, c.mt, c.mr, c.reps, c.pseed, show_kv(&c.facts), rules)
+    let mut s = format!(
+        "{} {} {} {} {} {} {}",
+        c.en as u8,
+        c.mt,
+        c.mr,
+        c.reps,
+        c.pseed,
+        show_facts_kv(&c.facts),
+        show_rules(&c.rules)
+    );
+    if c.dbg != 0 || !c.more.is_empty() {
+        s.push_str(&format!(" d{}", c.dbg));
+        for st in &c.more {
+            s.push_str(&format!(" {} {}", show_facts_kv(&st.facts), show_rules(&st.rules)));
+        }
+    }
+    s
+}
+
+fn stages(c: &Case) -> Vec<Stage> {
+    let mut v = vec![Stage { facts: c.facts.clone(), rules: c.rules.clone() }];
+    v.extend(c.more.iter().cloned());
+    v
 }
 
 fn op_of(s: &str) -> Option<Operator> {
@@ -173,7 +325,7 @@ fn build_cond(toks: &[Tok]) -> Option<ConditionGroup> {
             Tok::Leaf(f, o, v) => st.push(ConditionGroup::single(Condition::new(
                 f.clone(),
                 op_of(o)?,
-                Value::Integer(*v),
+                to_value(v),
             ))),
             Tok::Ref(f, o, g) => st.push(ConditionGroup::single(Condition::new(
                 f.clone(),
@@ -206,16 +358,16 @@ fn build_cond(toks: &[Tok]) -> Option<ConditionGroup> {
     }
 }
 
-fn build_facts(kv: &[(String, i64)]) -> Facts {
+fn build_facts(kv: &[(String, Val)]) -> Facts {
     let facts = Facts::new();
     let mut objs: BTreeMap<String, HashMap<String, Value>> = BTreeMap::new();
     for (k, v) in kv {
         match k.split_once('.') {
             Some((root, field)) => {
-                objs.entry(root.to_string()).or_default().insert(field.to_string(), Value::Integer(*v));
+                objs.entry(root.to_string()).or_default().insert(field.to_string(), to_value(v));
             }
             None => {
-                facts.add_value(k, Value::Integer(*v)).unwrap();
+                facts.add_value(k, to_value(v)).unwrap();
             }
         }
     }
@@ -228,6 +380,10 @@ fn build_facts(kv: &[(String, i64)]) -> Facts {
 fn show_value(prefix: &str, v: &Value, out: &mut Vec<String>) {
     match v {
         Value::Integer(i) => out.push(format!("{}={}", prefix, i)),
+        // an integral float is shown by its integer, never as a decimal
+        Value::Number(n) if n.fract() == 0.0 && n.abs() <= MAX_MAG as f64 => out.push(format!("{}=f{}", prefix, *n as i64)),
+        Value::Boolean(b) => out.push(format!("{}=b{}", prefix, *b as u8)),
+        Value::String(t) if valid_text(t) => out.push(format!("{}=s{}", prefix, t)),
         Value::Object(m) => {
             for (k, x) in m {
                 show_value(&format!("{}.{}", prefix, k), x, out);
@@ -252,9 +408,9 @@ fn show_facts(f: &Facts) -> String {
 
 static TIMEOUTS: std::sync::atomic::AtomicUsize = std::sync::atomic::AtomicUsize::new(0);
 
-/// one call of the real `execute_parallel` on a fresh knowledge base and fresh facts,
-/// guarded by a watchdog ("it always returns")
-fn run_once(c: &Case, enabled: bool, sched_seed: u64) -> String {
+/// one call of the real `execute_parallel` of the given (long-lived) engine on a fresh knowledge base object —
+/// always named "c19" — and fresh facts, guarded by a watchdog ("it always returns")
+fn run_once(engine: &Arc<ParallelRuleEngine>, st: &Stage, enabled: bool, debug: bool, sched_seed: u64) -> String {
     // once three calls have hung in this process, further calls that may spawn workers are not attempted
     // (each would cost the full watchdog time); the hang has been reported by then
     if enabled && TIMEOUTS.load(std::sync::atomic::Ordering::SeqCst) >= 3 {
@@ -263,11 +419,12 @@ fn run_once(c: &Case, enabled: bool, sched_seed: u64) -> String {
     // read by the `#[cfg(rre_verif)]` schedule points of src/engine/parallel.rs (hooks-C19.patch);
     // without the hook the variable is simply ignored
     std::env::set_var("RRE_VERIF_SCHED", sched_seed.to_string());
-    let c = c.clone();
+    let st = st.clone();
+    let engine = Arc::clone(engine);
     let (tx, rx) = mpsc::channel();
     std::thread::spawn(move || {
         let kb = KnowledgeBase::new("c19");
-        for r in &c.rules {
+        for r in &st.rules {
             let Some(cond) = build_cond(&r.cond) else {
                 let _ = tx.send("bad-cond".to_string());
                 return;
@@ -284,14 +441,8 @@ fn run_once(c: &Case, enabled: bool, sched_seed: u64) -> String {
                 return;
             }
         }
-        let facts = build_facts(&c.facts);
-        let engine = ParallelRuleEngine::new(ParallelConfig {
-            enabled,
-            max_threads: c.mt,
-            min_rules_per_thread: c.mr,
-            dependency_analysis: true,
-        });
-        let r = std::panic::catch_unwind(std::panic::AssertUnwindSafe(|| engine.execute_parallel(&kb, &facts, false)));
+        let facts = build_facts(&st.facts);
+        let r = std::panic::catch_unwind(std::panic::AssertUnwindSafe(|| engine.execute_parallel(&kb, &facts, debug)));
         let s = match r {
             Err(_) => "panic".to_string(),
             Ok(Err(_)) => "err".to_string(),
@@ -324,56 +475,168 @@ fn run_once(c: &Case, enabled: bool, sched_seed: u64) -> String {
 
 fn exec(case: &str) -> String {
     let Some(c) = parse_case(case) else { return "bad-case".into() };
-    let mut out = vec![format!("S:{}", run_once(&c, false, 0))];
-    out.push(format!("P:{}", run_once(&c, c.en, 0)));
-    for j in 0..c.reps {
-        let seed = c.pseed.wrapping_mul(1_000_003).wrapping_add(j as u64 + 1) | 1;
-        // contention cases (many repetitions): every other run is unperturbed, so that workers that start
-        // together also finish together (races on shared counters need simultaneous, not staggered, workers)
-        let seed = if c.reps >= 50 && j % 2 == 1 { 0 } else { seed };
-        out.push(format!("P:{}", run_once(&c, c.en, seed)));
+    let mk = |enabled: bool| {
+        Arc::new(ParallelRuleEngine::new(ParallelConfig {
+            enabled,
+            max_threads: c.mt,
+            min_rules_per_thread: c.mr,
+            dependency_analysis: true,
+        }))
+    };
+    // two engine objects for the whole case: every stage and every repetition goes through them
+    let eng_s = mk(false);
+    let eng_p = mk(c.en);
+    let (dbg_p, dbg_s) = (c.dbg & 1 != 0, c.dbg & 2 != 0);
+    let mut out_stages = Vec::new();
+    for st in stages(&c) {
+        let mut out = vec![format!("S:{}", run_once(&eng_s, &st, false, dbg_s, 0))];
+        out.push(format!("P:{}", run_once(&eng_p, &st, c.en, dbg_p, 0)));
+        for j in 0..c.reps {
+            let seed = c.pseed.wrapping_mul(1_000_003).wrapping_add(j as u64 + 1) | 1;
+            // contention cases (many repetitions): every other run is unperturbed, so that workers that start
+            // together also finish together (races on shared counters need simultaneous, not staggered, workers)
+            let seed = if c.reps >= 50 && j % 2 == 1 { 0 } else { seed };
+            out.push(format!("P:{}", run_once(&eng_p, &st, c.en, dbg_p, seed)));
+        }
+        out_stages.push(out.join(" "));
     }
-    out.join(" ")
+    out_stages.join(" ;; ")
+}
+
+// the engine prints to stdout when debug_mode is on (and `main_with`'s exec loop holds the stdout lock, which a
+// worker thread's `println!` would wait for): fd 1 is pointed at /dev/null while cases run and the observations go
+// to a duplicate of the original fd 1
+extern "C" {
+    fn dup(fd: i32) -> i32;
+    fn dup2(a: i32, b: i32) -> i32;
+}
+
+fn exec_main() {
+    use std::os::fd::{AsRawFd, FromRawFd};
+    let saved = unsafe { dup(1) };
+    let null = std::fs::OpenOptions::new().write(true).open("/dev/null").unwrap();
+    unsafe { dup2(null.as_raw_fd(), 1) };
+    let mut out = std::io::BufWriter::new(unsafe { std::fs::File::from_raw_fd(saved) });
+    std::panic::set_hook(Box::new(|_| {}));
+    let stdin = std::io::stdin();
+    for line in stdin.lock().lines() {
+        let line = line.unwrap();
+        let line = line.trim_end();
+        if line.is_empty() {
+            continue;
+        }
+        writeln!(out, "{}", exec_guarded(exec, line)).unwrap();
+        // flushed per case: if the process dies or hangs, the lines already printed name the killing case
+        out.flush().unwrap();
+    }
+    out.flush().unwrap();
 }
 
 // ------------------------------------------------------------------ generator
 
 const FIELDS: [&str; 7] = ["a", "b", "c", "d", "U.x", "U.y", "zz"]; // `zz` is never given a value
 const OPS: [&str; 6] = ["eq", "ne", "gt", "ge", "lt", "le"];
+/// string literals that are not numbers (`to_number` is None): the two that print like booleans, and plain words
+const WORDS: [&str; 4] = ["true", "false", "x", "yes"];
 
-fn gen_cond(rng: &mut Rng, depth: u32, out: &mut Vec<Tok>) {
+/// a value of a random scalar type "around" the small integer `n`: the integer, the float of the same value, the
+/// string that prints the same, a boolean, or the string that prints like that boolean
+fn gen_typed_val(rng: &mut Rng, n: i64) -> Val {
+    match rng.below(8) {
+        0 | 1 => Val::I(n),
+        2 | 3 => Val::F(n),
+        4 => Val::S(n.to_string()),
+        5 => Val::B(n & 1 == 1),
+        6 => Val::S(if n & 1 == 1 { "true" } else { "false" }.to_string()),
+        _ => Val::S(rng.pick(&WORDS).to_string()),
+    }
+}
+
+/// a leaf comparing `f` with the constant `v` (a string constant is an `R:` leaf)
+fn leaf_of(f: &str, o: &str, v: Val) -> Tok {
+    match v {
+        Val::S(t) => Tok::Ref(f.to_string(), o.to_string(), t),
+        v => Tok::Leaf(f.to_string(), o.to_string(), v),
+    }
+}
+
+fn gen_cond(rng: &mut Rng, depth: u32, typed: bool, out: &mut Vec<Tok>) {
     if depth == 0 || rng.chance(2, 5) {
         let f = *rng.pick(&FIELDS);
         let o = *rng.pick(&OPS);
-        if rng.chance(1, 4) {
+        if typed && rng.chance(1, 2) {
+            // constants of every scalar type; `==` / `!=` twice as often (they are the type-sensitive operators)
+            let o = if rng.chance(1, 2) { *rng.pick(&OPS[..2]) } else { o };
+            let n = rng.below(5) as i64 - 2;
+            out.push(leaf_of(f, o, gen_typed_val(rng, n)));
+        } else if rng.chance(1, 4) {
             // right-hand side names another field (Value::String resolved against the facts)
             out.push(Tok::Ref(f.to_string(), o.to_string(), rng.pick(&FIELDS).to_string()));
         } else {
-            out.push(Tok::Leaf(f.to_string(), o.to_string(), rng.below(5) as i64 - 2));
+            out.push(Tok::Leaf(f.to_string(), o.to_string(), Val::I(rng.below(5) as i64 - 2)));
         }
         return;
     }
     match rng.below(20) {
         0..=7 => {
-            gen_cond(rng, depth - 1, out);
-            gen_cond(rng, depth - 1, out);
+            gen_cond(rng, depth - 1, typed, out);
+            gen_cond(rng, depth - 1, typed, out);
             out.push(Tok::And);
         }
         8..=14 => {
-            gen_cond(rng, depth - 1, out);
-            gen_cond(rng, depth - 1, out);
+            gen_cond(rng, depth - 1, typed, out);
+            gen_cond(rng, depth - 1, typed, out);
             out.push(Tok::Or);
         }
         15..=18 => {
-            gen_cond(rng, depth - 1, out);
+            gen_cond(rng, depth - 1, typed, out);
             out.push(Tok::Not);
         }
         _ => {
-            gen_cond(rng, depth - 1, out);
-            gen_cond(rng, depth - 1, out);
+            gen_cond(rng, depth - 1, typed, out);
+            gen_cond(rng, depth - 1, typed, out);
             out.push(Tok::XNot);
         }
     }
+}
+
+fn gen_facts(rng: &mut Rng, typed: bool) -> Vec<(String, Val)> {
+    let mut facts = Vec::new();
+    for f in &FIELDS[..6] {
+        if rng.chance(4, 5) {
+            let n = rng.below(5) as i64 - 2;
+            facts.push((f.to_string(), if typed && rng.chance(1, 2) { gen_typed_val(rng, n) } else { Val::I(n) }));
+        }
+    }
+    facts
+}
+
+/// `n` rules named `<prefix>0 …`, saliences from `sal_dom` levels, each enabled with probability `p_enabled` %
+fn gen_rules(rng: &mut Rng, n: usize, prefix: &str, sal_dom: u64, p_enabled: u64, typed: bool) -> Vec<RuleSpec> {
+    let mut rules = Vec::new();
+    for i in 0..n {
+        let mut cond = Vec::new();
+        gen_cond(rng, 3, typed, &mut cond);
+        let mut acts = Vec::new();
+        for _ in 0..rng.below(3) {
+            // assignments that *would* change other rules' verdicts if the engine performed them
+            acts.push((rng.pick(&FIELDS[..6]).to_string(), rng.below(5) as i64 - 2 + 10));
+        }
+        rules.push(RuleSpec {
+            name: format!("{}{}", prefix, i),
+            sal: rng.below(sal_dom) as i32 * 5 - 5,
+            en: rng.below(100) < p_enabled,
+            cond,
+            acts,
+        });
+    }
+    rules
+}
+
+/// debug_mode of the calls: off in half of the cases; otherwise on for the configured engine (1), for both (3), or
+/// for the sequential reference only (2)
+fn gen_dbg(rng: &mut Rng) -> u8 {
+    *rng.pick(&[0u8, 0, 0, 0, 1, 1, 3, 2])
 }
 
 fn gen_case(rng: &mut Rng, reps: usize) -> Case {
@@ -383,30 +646,11 @@ fn gen_case(rng: &mut Rng, reps: usize) -> Case {
         _ => rng.range(1, 24),
     } as usize;
     let sal_dom = *rng.pick(&[1u64, 2, 2, 3, 4]);
-    let mut facts = Vec::new();
-    for f in &FIELDS[..6] {
-        if rng.chance(4, 5) {
-            facts.push((f.to_string(), rng.below(5) as i64 - 2));
-        }
-    }
+    // a quarter of the cases draws constants and fact values from every scalar type
+    let typed = rng.chance(1, 4);
+    let facts = gen_facts(rng, typed);
     let p_enabled = *rng.pick(&[100u64, 100, 85, 60]);
-    let mut rules = Vec::new();
-    for i in 0..n {
-        let mut cond = Vec::new();
-        gen_cond(rng, 3, &mut cond);
-        let mut acts = Vec::new();
-        for _ in 0..rng.below(3) {
-            // assignments that *would* change other rules' verdicts if the engine performed them
-            acts.push((rng.pick(&FIELDS[..6]).to_string(), rng.below(5) as i64 - 2 + 10));
-        }
-        rules.push(RuleSpec {
-            name: format!("r{}", i),
-            sal: rng.below(sal_dom) as i32 * 5 - 5,
-            en: rng.below(100) < p_enabled,
-            cond,
-            acts,
-        });
-    }
+    let rules = gen_rules(rng, n, "r", sal_dom, p_enabled, typed);
     Case {
         en: !rng.chance(1, 7),
         mt: if rng.chance(1, 4) { rng.range(1, 3) } else { rng.range(1, 16) } as usize,
@@ -415,15 +659,146 @@ fn gen_case(rng: &mut Rng, reps: usize) -> Case {
         pseed: rng.next() % 1_000_000,
         facts,
         rules,
+        dbg: gen_dbg(rng),
+        more: vec![],
     }
+}
+
+/// a constant of another type whose `Value::to_string()` is the same: 25 / 25.0 / "25", true / "true"
+fn twin_of(rng: &mut Rng, v: &Val) -> Val {
+    let flip = rng.chance(1, 2);
+    match v {
+        Val::I(n) => if flip { Val::F(*n) } else { Val::S(n.to_string()) },
+        Val::F(n) => if flip { Val::I(*n) } else { Val::S(n.to_string()) },
+        Val::B(b) => Val::S(b.to_string()),
+        Val::S(t) => match (t.as_str(), t.parse::<i64>()) {
+            ("true", _) => Val::B(true),
+            ("false", _) => Val::B(false),
+            (_, Ok(n)) => if flip { Val::I(n) } else { Val::F(n) },
+            _ => Val::S(t.clone()),
+        },
+    }
+}
+
+/// look-alike constants: one salience level of single-comparison rules on one or two fields, mostly `==` / `!=`,
+/// whose constants are the same number / truth value in different types (25, 25.0, "25"; true, "true") plus a few
+/// near misses, in random order, with few threads — several of them share a worker's chunk.  The evaluator
+/// distinguishes them (`Value`'s `PartialEq` is type-sensitive) and so must anything that sits in front of it.
+fn gen_lookalike(rng: &mut Rng, reps: usize) -> Case {
+    let base = *rng.pick(&[0i64, 1, 1, -1, 2, 25]);
+    let numeric = rng.chance(2, 3);
+    let pool: Vec<Val> = if numeric {
+        vec![
+            Val::I(base),
+            Val::F(base),
+            Val::S(base.to_string()),
+            Val::I(base + 1),
+            Val::F(base + 1),
+            Val::S((base + 1).to_string()),
+        ]
+    } else {
+        vec![
+            Val::B(true),
+            Val::S("true".into()),
+            Val::B(false),
+            Val::S("false".into()),
+            Val::I(1),
+            Val::I(0),
+        ]
+    };
+    let fields: Vec<&str> = if rng.chance(1, 2) { vec!["a"] } else { vec!["a", "U.x"] };
+    let mut facts: Vec<(String, Val)> = fields.iter().map(|f| (f.to_string(), rng.pick(&pool[..4]).clone())).collect();
+    if rng.chance(1, 3) {
+        facts.push(("b".to_string(), rng.pick(&pool).clone()));
+    }
+    let n = rng.range(2, 10) as usize;
+    let ops: &[&str] = match rng.below(4) {
+        0 => &["eq"],
+        1 => &["ne"],
+        2 => &["eq", "ne"],
+        _ => &OPS,
+    };
+    let mut rules: Vec<RuleSpec> = Vec::new();
+    for i in 0..n {
+        let (f, o, v) = match rules.last().map(|r: &RuleSpec| r.cond[0].clone()) {
+            // half of the rules are the *twin* of an earlier one: same field, same operator, a constant that prints
+            // the same but has another type
+            Some(prev) if rng.chance(1, 2) => {
+                let (f, o, v) = match prev {
+                    Tok::Leaf(f, o, v) => (f, o, v),
+                    Tok::Ref(f, o, t) => (f, o, Val::S(t)),
+                    _ => unreachable!(),
+                };
+                let (f, o) = (fields.iter().copied().find(|x| *x == f).unwrap(), OPS.iter().copied().find(|x| *x == o).unwrap());
+                (f, o, twin_of(rng, &v))
+            }
+            _ => (*rng.pick(&fields), *rng.pick(ops), rng.pick(&pool).clone()),
+        };
+        let mut cond = vec![leaf_of(f, o, v)];
+        if rng.chance(1, 8) {
+            cond.push(Tok::Not);
+        }
+        rules.push(RuleSpec { name: format!("r{}", i), sal: if rng.chance(1, 8) { 5 } else { 0 }, en: !rng.chance(1, 12), cond, acts: vec![] });
+    }
+    // the twins need not be neighbours
+    if rng.chance(1, 2) {
+        rng.shuffle(&mut rules);
+        for (i, r) in rules.iter_mut().enumerate() {
+            r.name = format!("r{}", i);
+        }
+    }
+    Case {
+        en: !rng.chance(1, 7),
+        mt: *rng.pick(&[1usize, 1, 2, 2, 3, 4, 16]),
+        mr: rng.range(1, 2) as usize,
+        reps,
+        pseed: rng.next() % 1_000_000,
+        facts,
+        rules,
+        dbg: gen_dbg(rng),
+        more: vec![],
+    }
+}
+
+/// one engine, several knowledge bases: two or three stages, every knowledge base a different object with the same
+/// name; the later rule sets have (mostly) the same number of rules — hence the same `version()` — but other
+/// conditions, saliences, enabled flags and (half of the time) other rule names; sometimes the very same rules on
+/// other facts, sometimes one rule more or fewer.  Parallelism on and off (`en`), debug on and off.
+fn gen_session(rng: &mut Rng, reps: usize) -> Case {
+    let mut c = gen_case(rng, reps);
+    let n = rng.range(1, 12) as usize;
+    let typed = rng.chance(1, 5);
+    let (sal_dom, p_en) = (*rng.pick(&[1u64, 2, 3]), *rng.pick(&[100u64, 100, 75]));
+    c.rules = gen_rules(rng, n, "r", sal_dom, p_en, typed);
+    c.facts = gen_facts(rng, typed);
+    for k in 0..rng.range(1, 2) {
+        let prefix = if rng.chance(1, 2) { "r".to_string() } else { format!("k{}r", k + 1) };
+        let (sal_dom, p_en) = (*rng.pick(&[1u64, 2, 3]), *rng.pick(&[100u64, 100, 75]));
+        let (rules, facts) = match rng.below(8) {
+            // the same rule set again, other facts
+            0 => (c.rules.clone(), gen_facts(rng, typed)),
+            // one rule more / fewer (a different version)
+            1 => {
+                let m = if n > 1 && rng.chance(1, 2) { n - 1 } else { n + 1 };
+                (gen_rules(rng, m, &prefix, sal_dom, p_en, typed), c.facts.clone())
+            }
+            // same number of rules, different rules; same or other facts
+            2..=4 => (gen_rules(rng, n, &prefix, sal_dom, p_en, typed), c.facts.clone()),
+            _ => (gen_rules(rng, n, &prefix, sal_dom, p_en, typed), gen_facts(rng, typed)),
+        };
+        c.more.push(Stage { facts, rules });
+    }
+    c
 }
 
 fn gen(rng: &mut Rng, n: usize, tier: &str) -> Vec<String> {
     let reps = if tier == "thorough" { 4 } else { 3 };
     let mut out = Vec::new();
-    // systematic part: every (n, max_threads) chunking shape on one salience level, min_rules 1..4
+    // systematic part: every (n, max_threads) chunking shape on one salience level, min_rules 1..4;
+    // debug_mode alternates over the shapes (off / configured engine / off / both engines)
     let (nmax, step) = if tier == "thorough" { (24usize, 1usize) } else { (24usize, 3usize) };
     let mut n_rules = 1;
+    let mut shape = 0usize;
     while n_rules <= nmax {
         for mt in 1..=16usize {
             if tier != "thorough" && !(mt <= 5 || mt == n_rules || mt + 1 == n_rules || mt == n_rules + 1 || mt == 16 || mt == 8) {
@@ -433,6 +808,8 @@ fn gen(rng: &mut Rng, n: usize, tier: &str) -> Vec<String> {
             c.en = true;
             c.mt = mt;
             c.mr = 1 + (n_rules + mt) % 4;
+            c.dbg = [0u8, 1, 0, 3][shape % 4];
+            shape += 1;
             c.rules.truncate(n_rules);
             while c.rules.len() < n_rules {
                 let mut more = gen_case(rng, 1).rules;
@@ -460,33 +837,82 @@ fn gen(rng: &mut Rng, n: usize, tier: &str) -> Vec<String> {
         c.mt = 16;
         c.mr = 1;
         c.reps = creps;
-        c.facts = vec![("a".to_string(), 1)];
+        c.dbg = 0;
+        c.facts = vec![("a".to_string(), Val::I(1))];
         let n_rules = 16 + (k % 9);
         c.rules = (0..n_rules)
             .map(|i| RuleSpec {
                 name: format!("r{}", i),
                 sal: 0,
                 en: true,
-                cond: vec![Tok::Leaf("a".to_string(), if i % 5 == 4 { "lt" } else { "ge" }.to_string(), 1)],
+                cond: vec![Tok::Leaf("a".to_string(), if i % 5 == 4 { "lt" } else { "ge" }.to_string(), Val::I(1))],
                 acts: vec![],
             })
             .collect();
         out.push(show_case(&c));
     }
+    // random part: 1/6 sessions (one engine, several knowledge bases; one perturbed repetition per stage, so a
+    // session costs about as many calls as a plain case), 1/8 look-alike constants, the rest plain cases
     for _ in 0..n {
-        out.push(show_case(&gen_case(rng, reps)));
+        let c = match rng.below(24) {
+            0..=3 => gen_session(rng, 1),
+            4..=6 => gen_lookalike(rng, reps.min(2)),
+            _ => gen_case(rng, reps),
+        };
+        out.push(show_case(&c));
     }
     out
+}
+
+fn from_stages(c: &Case, sts: Vec<Stage>) -> Case {
+    let mut d = c.clone();
+    let mut it = sts.into_iter();
+    let s0 = it.next().unwrap();
+    d.facts = s0.facts;
+    d.rules = s0.rules;
+    d.more = it.collect();
+    d
 }
 
 fn shrink(case: &str) -> Vec<String> {
     let Some(c) = parse_case(case) else { return vec![] };
     let mut out = Vec::new();
-    for rs in shrink_list(&c.rules) {
-        if !rs.is_empty() {
-            let mut d = c.clone();
-            d.rules = rs;
-            out.push(show_case(&d));
+    let sts = stages(&c);
+    // fewer stages: drop one (the first included: the next one is promoted)
+    if sts.len() > 1 {
+        for i in (0..sts.len()).rev() {
+            let mut v = sts.clone();
+            v.remove(i);
+            out.push(show_case(&from_stages(&c, v)));
+        }
+        // the same rule position removed from every stage (keeps the rule counts equal)
+        let m = sts.iter().map(|s| s.rules.len()).min().unwrap_or(0);
+        if m > 1 {
+            for i in (0..m).rev() {
+                let mut v = sts.clone();
+                for s in v.iter_mut() {
+                    s.rules.remove(i);
+                }
+                out.push(show_case(&from_stages(&c, v)));
+            }
+        }
+    }
+    if c.dbg != 0 {
+        for dbg in [0u8, 1] {
+            if dbg != c.dbg {
+                let mut d = c.clone();
+                d.dbg = dbg;
+                out.push(show_case(&d));
+            }
+        }
+    }
+    for (k, st) in sts.iter().enumerate() {
+        for rs in shrink_list(&st.rules) {
+            if !rs.is_empty() {
+                let mut v = sts.clone();
+                v[k].rules = rs;
+                out.push(show_case(&from_stages(&c, v)));
+            }
         }
     }
     if c.mt > 1 {
@@ -508,37 +934,43 @@ fn shrink(case: &str) -> Vec<String> {
         d.reps = 0;
         out.push(show_case(&d));
     }
-    for i in 0..c.rules.len() {
-        if c.rules[i].cond.len() > 1 {
-            // replace the condition by one of its leaves
-            for t in &c.rules[i].cond {
-                if matches!(t, Tok::Leaf(..) | Tok::Ref(..)) {
-                    let mut d = c.clone();
-                    d.rules[i].cond = vec![t.clone()];
-                    out.push(show_case(&d));
-                    break;
+    for (k, st) in sts.iter().enumerate() {
+        for i in 0..st.rules.len() {
+            if st.rules[i].cond.len() > 1 {
+                // replace the condition by one of its leaves
+                for t in &st.rules[i].cond {
+                    if matches!(t, Tok::Leaf(..) | Tok::Ref(..)) {
+                        let mut v = sts.clone();
+                        v[k].rules[i].cond = vec![t.clone()];
+                        out.push(show_case(&from_stages(&c, v)));
+                        break;
+                    }
                 }
             }
+            if !st.rules[i].acts.is_empty() {
+                let mut v = sts.clone();
+                v[k].rules[i].acts.clear();
+                out.push(show_case(&from_stages(&c, v)));
+            }
+            if st.rules[i].sal != 0 {
+                let mut v = sts.clone();
+                v[k].rules[i].sal = 0;
+                out.push(show_case(&from_stages(&c, v)));
+            }
         }
-        if !c.rules[i].acts.is_empty() {
-            let mut d = c.clone();
-            d.rules[i].acts.clear();
-            out.push(show_case(&d));
+        for fs in shrink_list(&st.facts) {
+            let mut v = sts.clone();
+            v[k].facts = fs;
+            out.push(show_case(&from_stages(&c, v)));
         }
-        if c.rules[i].sal != 0 {
-            let mut d = c.clone();
-            d.rules[i].sal = 0;
-            out.push(show_case(&d));
-        }
-    }
-    for fs in shrink_list(&c.facts) {
-        let mut d = c.clone();
-        d.facts = fs;
-        out.push(show_case(&d));
     }
     out
 }
 
 fn main() {
-    main_with(Prop { gen, exec, shrink });
+    if std::env::args().nth(1).as_deref() == Some("exec") {
+        exec_main();
+    } else {
+        main_with(Prop { gen, exec, shrink });
+    }
 }
